@@ -27,13 +27,17 @@ FoldVals(arg, vs, k, c) ==
         IF arg.uniq # "no" /\ Contains(c, v) THEN FoldVals(arg, vs, k + 1, c)
         ELSE FoldVals(arg, vs, k + 1, AddTo(arg.kind, c, v))
 ContainerIntended(arg, vs) ==
-   IF arg.kind = "arr3" THEN
+   IF IsArr(arg.kind) THEN
       LET got == FoldVals(arg, vs, 1, <<>>)
           s == IF arg.sort THEN SortInts(got) ELSE got IN
       [k \in 1..3 |-> IF k <= Len(s) THEN s[k] ELSE arg.init[k]]
+   ELSE IF arg.kind = "tup" THEN
+      [k \in 1..3 |-> IF k <= Len(vs) THEN ConvElemAt(arg, vs[k], k - 1).v ELSE arg.init[k]]
+   ELSE IF arg.kind = "bits8" THEN
+      [k \in 1..8 |-> (\E j \in 1..Len(vs) : ValueOf(arg, vs[j]) = k - 1) \/ (~arg.clear /\ arg.init[k])]
    ELSE LET base == IF arg.clear THEN <<>> ELSE arg.init
             got == FoldVals(arg, vs, 1, base) IN
-        IF arg.sort /\ arg.kind # "setint" THEN SortInts(got) ELSE got
+        IF arg.sort /\ ~SortedKind(arg.kind) THEN SortInts(got) ELSE got
 \* number of elements a fixed-size destination would have to hold
 StoredCount(arg, vs) == Len(FoldVals(arg, vs, 1, <<>>))
 \* a duplicate among the values given (or against the previous content) when duplicates are errors
@@ -54,12 +58,12 @@ Intended(cfg, line) ==
 
 \* ---- validity
 CardOK(arg, nuses, nvals) ==
-   LET n == IF IsContainer(arg.kind) THEN nvals ELSE nuses IN
-   CASE arg.card.t = "dflt"  -> IsContainer(arg.kind) \/ n <= 1
-     [] arg.card.t = "none"  -> TRUE
-     [] arg.card.t = "max"   -> n <= arg.card.a
-     [] arg.card.t = "exact" -> n = arg.card.a
-     [] arg.card.t = "range" -> n >= arg.card.a /\ n <= arg.card.b
+   LET n == IF IsContainer(arg.kind) THEN nvals ELSE nuses
+       card == EffCard(arg) IN
+   CASE card.t = "none"  -> TRUE
+     [] card.t = "max"   -> n <= card.a
+     [] card.t = "exact" -> n = card.a
+     [] card.t = "range" -> n >= card.a /\ n <= card.b
      [] OTHER -> TRUE
 
 ArgValid(cfg, line, a) ==
@@ -71,11 +75,12 @@ ArgValid(cfg, line, a) ==
               IF arg.kind = "flag" THEN Len(line[k].vals) = 0
               ELSE IF IsContainer(arg.kind) THEN Len(line[k].vals) >= 1
               ELSE Len(line[k].vals) = 1
-        /\ \A k \in 1..Len(vs) : ValueOK(arg, vs[k])
+        /\ \A k \in 1..Len(vs) : IF arg.kind = "tup" THEN k <= 3 /\ ConvElemAt(arg, vs[k], k - 1).ok ELSE ValueOK(arg, vs[k])
         /\ CardOK(arg, Cardinality(UsesIdx(line, a)), Len(vs))
-        /\ (arg.kind = "arr3" => StoredCount(arg, vs) <= 3)
+        /\ (IsArr(arg.kind) => StoredCount(arg, vs) <= 3)
+        /\ (arg.kind = "bits8" => \A k \in 1..Len(vs) : ValueOf(arg, vs[k]) >= 0 /\ ValueOf(arg, vs[k]) < 8)
         /\ (IsContainer(arg.kind) /\ arg.uniq = "error" =>
-               ~HasDup(arg, vs, 1, IF arg.kind = "arr3" \/ arg.clear THEN <<>> ELSE arg.init))
+               ~HasDup(arg, vs, 1, IF IsArr(arg.kind) \/ arg.clear THEN <<>> ELSE arg.init))
 
 \* requires/excludes in their documented, order-sensitive sense
 ConstraintsOK(cfg, line) ==
